@@ -1413,6 +1413,19 @@ def store12(ctx) -> List[Ob]:
 PAYLOAD_FIELDS = {"tree", "variable_assignment", "branch_value_table", "_jump_targets", "backedges"}
 
 
+def _inplace_reduce_sites(prog):
+    """functools.reduce(operator.iadd / iconcat / list.extend, seq) without an initial value: the first element
+    of seq is extended in place"""
+    out = []
+    for fn in prog.functions:
+        for n in A.walk_no_nested(fn.node):
+            if isinstance(n, ast.Call) and (A.dotted(n.func) or "").split(".")[-1] == "reduce" and len(n.args) == 2 and not n.keywords:
+                f0 = (A.dotted(n.args[0]) or "")
+                if f0.split(".")[-1] in ("iadd", "iconcat", "extend", "__iadd__"):
+                    out.append((fn, n))
+    return out
+
+
 @rule("STORE-13", 1, "a block's payload containers are never mutated in place (blocks are shared between graph, sub-graphs and callers)")
 def store13(ctx) -> List[Ob]:
     out: List[Ob] = []
@@ -1440,5 +1453,48 @@ def store13(ctx) -> List[Ob]:
             n_sites += 1
             key = A.alpha_key(A.enclosing_stmt(n) or n)
             out.append(bad("STORE-13", fn.qualname, key, ctx.where(fn, n), f"{A.unparse(tgt)[:40]} of a block is mutated in place ({how}): the graph changes as a side effect (a second code generation / walk sees different blocks)"))
+    for fn_, call_ in _inplace_reduce_sites(prog):
+        out.append(bad("STORE-13", fn_.qualname, "in-place reduce: " + A.alpha_key(call_)[:70], ctx.where(fn_, call_), f"'{A.unparse(call_)[:60]}' has no initial value: the first list of the sequence is extended in place - when that list is a block's own statement list (PythonASTBlock.tree) the graph is changed by reading it"))
     out.append(ok("STORE-13", "<module>", "census of in-place payload mutations", "numba_scfg:1", f"{n_sites} in-place mutation(s) of block payload containers in {len(prog.functions)} functions", nontrivial=False))
+    return out
+
+
+# ------------------------------------------------------------------ STORE-14
+
+_MUTATION_CALLS = {"insert_block_and_control_blocks", "join_tails_and_exits", "insert_SyntheticFill", "insert_SyntheticTail", "insert_SyntheticExit", "insert_SyntheticReturn", "insert_block", "join_returns", "add_block", "remove_blocks", "extract_region", "loop_restructure_helper", "update_exiting"}
+
+
+@rule("STORE-14", 10, "census of the places where the restructuring pipeline changes a graph: every call of an edit primitive, add_block / remove_blocks / pop on a graph in the pipeline functions is one of the audited sites (the sites the other STORE / CTRL rules reason about); a new one is a change of the algorithm that nothing checks")
+def store14(ctx) -> List[Ob]:
+    out: List[Ob] = []
+    prog = ctx.prog
+    tr = prog.module("transformations")
+    scfg_cls = prog.cls("SCFG")
+    fns = [f for f in prog.functions if f.module is tr]
+    for nm in ("restructure", "restructure_loop", "restructure_branch", "join_returns", "join_tails_and_exits"):
+        m = scfg_cls.find_method(nm)
+        if m is not None:
+            fns.append(m)
+    for fn in fns:
+        for n in A.walk_no_nested(fn.node):
+            what = None
+            if isinstance(n, ast.Call):
+                d = (A.dotted(n.func) or "").split(".")[-1]
+                if d in _MUTATION_CALLS:
+                    what = d
+                    if d == "insert_block":
+                        bt = kw(n, "block_type", 3)
+                        what += "(" + ((A.dotted(bt) or "?").split(".")[-1] if bt is not None else "?") + ")"
+                    elif d == "extract_region":
+                        k_ = kw(n, "region_kind", 2)
+                        what += "(" + (repr(k_.value) if isinstance(k_, ast.Constant) else "?") + ")"
+                elif isinstance(n.func, ast.Attribute) and n.func.attr == "pop" and isinstance(n.func.value, ast.Attribute) and n.func.value.attr == "graph":
+                    what = "graph.pop"
+            elif isinstance(n, ast.Delete) and any(isinstance(t, ast.Subscript) and isinstance(t.value, ast.Attribute) and t.value.attr == "graph" for t in n.targets):
+                what = "del graph[..]"
+            elif isinstance(n, ast.Assign) and any(isinstance(t, ast.Subscript) and isinstance(t.value, ast.Attribute) and t.value.attr == "graph" for t in n.targets):
+                what = "graph[..] ="
+            if what is None:
+                continue
+            out.append(bad("STORE-14", fn.qualname, "mutation: " + what, ctx.where(fn, n), f"{fn.qualname} changes a graph through {what} at a place that is not one of the audited mutation sites of the pipeline: a step was added to (or duplicated in) the restructuring algorithm, and the rules that check path preservation, conservation and the region bookkeeping only cover the audited steps"))
     return out
